@@ -169,6 +169,10 @@ func (p *Path) Resolve(root *Skeleton) (*Cursor, error) {
 	for i, seg := range p.Segments {
 		isFinal := i == len(p.Segments)-1
 
+		// A map / array written by an earlier op of the same patch is held as
+		// an opaque leaf; open it up so this op sees what that op produced.
+		materialize(current)
+
 		switch seg.Kind {
 		case SegField:
 			if current.Kind != KindMap {
@@ -189,6 +193,7 @@ func (p *Path) Resolve(root *Skeleton) (*Cursor, error) {
 				}, nil
 			}
 			if isFinal {
+				materialize(current.MapFields[idx].Value)
 				return &Cursor{
 					Parent:    current,
 					Final:     seg,
@@ -209,6 +214,7 @@ func (p *Path) Resolve(root *Skeleton) (*Cursor, error) {
 				return nil, err
 			}
 			if isFinal {
+				materialize(current.ArrayItems[idx])
 				return &Cursor{
 					Parent:             current,
 					Final:              seg,
@@ -239,6 +245,46 @@ func (p *Path) Resolve(root *Skeleton) (*Cursor, error) {
 	}
 	// Unreachable in correct paths.
 	return nil, fmt.Errorf("%w: walk fell through", ErrPathInvalid)
+}
+
+// materialize turns a spliced container value — a leaf that carries the raw
+// bytes of a msgpack map or array written by an earlier op of the same patch
+// (SET / APPEND / PREPEND / MERGE) — into a structural node, so that later ops
+// of that patch can navigate into it, append to it or merge into it exactly as
+// they could if the ops were sent as separate patches. Values that are never
+// addressed again stay opaque and keep their bytes verbatim. A value that
+// cannot be parsed structurally (e.g. a map with non-string keys) stays opaque.
+func materialize(s *Skeleton) {
+	if s == nil || s.Kind != KindLeaf || len(s.RawBytes) == 0 {
+		return
+	}
+	if !isMapCode(s.RawBytes[0]) && !isArrayCode(s.RawBytes[0]) {
+		return
+	}
+	raw := s.RawBytes
+	sub, err := Parse(raw)
+	if err != nil {
+		return
+	}
+	bindLeaves(sub, raw)
+	*s = *sub
+}
+
+// bindLeaves makes every leaf below s self-contained by pointing RawBytes at
+// its byte range in raw, the blob s was parsed from.
+func bindLeaves(s *Skeleton, raw []byte) {
+	switch s.Kind {
+	case KindLeaf:
+		s.RawBytes = raw[s.LeafStart:s.LeafEnd]
+	case KindMap:
+		for i := range s.MapFields {
+			bindLeaves(s.MapFields[i].Value, raw)
+		}
+	case KindArray:
+		for _, item := range s.ArrayItems {
+			bindLeaves(item, raw)
+		}
+	}
 }
 
 // findField returns the index of name in m.MapFields, or -1 if absent.
